@@ -484,6 +484,7 @@ namespace Kopf.C09
 structure Inv (c : Cfg) (s : St) : Prop where
   live : s.live = if s.run.isSome then 1 else 0
   inst : ∀ i, s.run = some i → InstInv c s.now i
+  goneKnown : s.goneAt.isSome = true → s.known = false
 
 /-- the same instance, later: nothing is ever taken back -/
 structure Mono (i i' : Inst) : Prop where
@@ -511,13 +512,16 @@ structure Evolves (s s' : St) : Prop where
   noneStays : s.run = none → s' = s
   paused : s'.paused = s.paused
   killerDone : s'.killerDone = s.killerDone
+  exitAt : s'.exitAt = s.exitAt
+  goneAt : s'.goneAt = s.goneAt
 
 theorem Evolves.refl (s : St) : Evolves s s :=
-  ⟨rfl, rfl, rfl, fun h => h, fun i' h => ⟨i', h, Mono.refl i', rfl⟩, fun _ => rfl, rfl, rfl⟩
+  ⟨rfl, rfl, rfl, fun h => h, fun i' h => ⟨i', h, Mono.refl i', rfl⟩, fun _ => rfl, rfl, rfl, rfl, rfl⟩
 
 theorem Evolves.trans {a b d : St} (h1 : Evolves a b) (h2 : Evolves b d) : Evolves a d := by
   refine ⟨h2.now.trans h1.now, h2.spawns.trans h1.spawns, h2.known.trans h1.known,
-    fun h => h2.foreverMono (h1.foreverMono h), ?_, ?_, h2.paused.trans h1.paused, h2.killerDone.trans h1.killerDone⟩
+    fun h => h2.foreverMono (h1.foreverMono h), ?_, ?_, h2.paused.trans h1.paused, h2.killerDone.trans h1.killerDone,
+    h2.exitAt.trans h1.exitAt, h2.goneAt.trans h1.goneAt⟩
   · intro i' hi'
     obtain ⟨j, hj, m2, k2⟩ := h2.same i' hi'
     obtain ⟨i, hi, m1, k1⟩ := h1.same j hj
@@ -529,14 +533,14 @@ theorem Evolves.trans {a b d : St} (h1 : Evolves a b) (h2 : Evolves b d) : Evolv
 
 theorem endInst_inv {c : Cfg} {s : St} (h : Inv c s) {i : Inst} (hi : s.run = some i) (j : Inst) :
     Inv c (endInst s j) := by
-  refine ⟨?_, ?_⟩
+  refine ⟨?_, ?_, h.goneKnown⟩
   · have := h.live
     simp [hi] at this
     simp [endInst, this]
   · intro k hk; simp [endInst] at hk
 
 theorem endInst_evolves {s : St} {i : Inst} (_hi : s.run = some i) (j : Inst) : Evolves s (endInst s j) := by
-  refine ⟨rfl, rfl, rfl, ?_, ?_, ?_, rfl, rfl⟩
+  refine ⟨rfl, rfl, rfl, ?_, ?_, ?_, rfl, rfl, rfl, rfl⟩
   · intro hf; simp [endInst, hf]
   · intro i' hi'; simp [endInst] at hi'
   · intro hn; rw [hn] at _hi; cases _hi
@@ -557,7 +561,7 @@ theorem stopIf_spec {c : Cfg} {s : St} (h : Inv c s) {r : Reason} (hr : r.primar
       cases hspec with
       | alive i' d inv asked mono whenKept cancKept abanKept ksKept sinceKept =>
         simp only [applyOut]
-        refine ⟨⟨?_, ?_⟩, ⟨rfl, rfl, rfl, fun hf => hf, ?_, ?_, rfl, rfl⟩, ?_⟩
+        refine ⟨⟨?_, ?_, h.goneKnown⟩, ⟨rfl, rfl, rfl, fun hf => hf, ?_, ?_, rfl, rfl, rfl, rfl⟩, ?_⟩
         · have := h.live; simp [hrun] at this; simp [this]
         · intro k hk; simp at hk; subst hk; exact inv
         · intro k hk; simp at hk; subst hk
@@ -570,35 +574,67 @@ theorem stopIf_spec {c : Cfg} {s : St} (h : Inv c s) {r : Reason} (hr : r.primar
 
 theorem spawn_inv {c : Cfg} {s : St} (h : Inv c s) (hrun : s.run = none) (_hf : s.forever = false) :
     Inv c (spawn s) := by
-  refine ⟨?_, ?_⟩
+  refine ⟨?_, ?_, h.goneKnown⟩
   · have := h.live; simp [hrun] at this; simp [spawn, this]
   · intro i hi; simp [spawn] at hi; subst hi; exact InstInv.fresh c _ _
+
+/-- the state after the DELETED bookkeeping of a cycle -/
+def forgotten (inp : CycIn) (s : St) : St :=
+  if inp.deleted then { s with known := false, goneAt := some s.now } else s
+
+theorem forgotten_inv {c : Cfg} {s : St} (h : Inv c s) (inp : CycIn) : Inv c (forgotten inp s) := by
+  unfold forgotten
+  cases inp.deleted with
+  | false => exact h
+  | true => exact ⟨h.live, h.inst, fun _ => rfl⟩
+
+theorem forgotten_fields (inp : CycIn) (s : St) :
+    (forgotten inp s).now = s.now ∧ (forgotten inp s).run = s.run ∧ (forgotten inp s).forever = s.forever ∧
+    (forgotten inp s).spawns = s.spawns ∧ (forgotten inp s).known = (s.known && !inp.deleted) ∧
+    (forgotten inp s).paused = s.paused ∧ (forgotten inp s).killerDone = s.killerDone ∧
+    (forgotten inp s).exitAt = s.exitAt ∧
+    (forgotten inp s).goneAt = (if inp.deleted then some s.now else s.goneAt) := by
+  unfold forgotten; cases inp.deleted <;> simp
+
+/-- whether `spawn_daemons` returns at once in this cycle -/
+def blockedIn (c : Cfg) (inp : CycIn) (s : St) : Bool :=
+  (c.marksExiting && s.exitAt.isSome) || (c.stopsGone && (inp.deleted || s.goneAt.isSome))
+
+theorem blocked_forgotten (c : Cfg) (inp : CycIn) (s : St) : (forgotten inp s).spawnBlocked c = blockedIn c inp s := by
+  unfold forgotten St.spawnBlocked blockedIn
+  cases inp.deleted <;> simp
+
+/-- the three stages of an unmarked cycle, as states -/
+theorem cycle_unfold (c : Cfg) (inp : CycIn) (s : St) :
+    cycle c inp s =
+      if inp.marked then stopIf c (forgotten inp s) true .deleted inp.ex1
+      else
+        let s0 := forgotten inp s
+        let sel := inp.matching && !s0.forever
+        let s1 := if sel && s0.run.isNone && !s0.spawnBlocked c then spawn s0 else s0
+        let p2 := stopIf c s1 (!sel) .mismatch inp.ex1
+        let p3 := stopIf c p2.1 inp.paused .pausing inp.ex2
+        (p3.1, p2.2 ++ p3.2) := by
+  unfold cycle forgotten
+  rfl
 
 /-- What one processing cycle does to this handler id. -/
 theorem cycle_spec {c : Cfg} {s : St} (h : Inv c s) (inp : CycIn) :
     let s' := (cycle c inp s).1
     Inv c s' ∧ s'.now = s.now ∧ (s.forever = true → s'.forever = true) ∧
     s'.known = (s.known && !inp.deleted) ∧
-    s'.spawns = s.spawns + (if !inp.marked && inp.matching && !s.forever && s.run.isNone then 1 else 0) ∧
+    s'.spawns = s.spawns + (if !inp.marked && inp.matching && !s.forever && s.run.isNone && !blockedIn c inp s then 1 else 0) ∧
     (∀ i i', s.run = some i → s'.run = some i' → Mono i i') ∧
     (inp.marked = true → ∀ i', s'.run = some i' → Reason.deleted ∈ i'.reasons) ∧
     (inp.marked = false → (inp.matching && !s.forever) = false → ∀ i', s'.run = some i' → Reason.mismatch ∈ i'.reasons) ∧
     (inp.marked = false → inp.paused = true → ∀ i', s'.run = some i' → Reason.pausing ∈ i'.reasons) := by
   intro s'
-  -- the memory is forgotten first (DELETED events)
-  have hk : ∀ (b : Bool), Inv c (if b then { s with known := false } else s) := by
-    intro b; cases b
-    · exact h
-    · exact ⟨h.live, h.inst⟩
-  generalize hs0 : (if inp.deleted = true then { s with known := false } else s) = s0
-  have h0 : Inv c s0 := hs0 ▸ hk inp.deleted
-  have e0 : s0.now = s.now ∧ s0.run = s.run ∧ s0.forever = s.forever ∧ s0.spawns = s.spawns ∧
-      s0.known = (s.known && !inp.deleted) ∧ s0.live = s.live := by
-    subst hs0; cases inp.deleted <;> simp
-  obtain ⟨e0n, e0r, e0f, e0s, e0k, _⟩ := e0
   have hs' : s' = (cycle c inp s).1 := rfl
-  unfold cycle at hs'
-  simp only [hs0] at hs'
+  rw [cycle_unfold] at hs'
+  have h0 := forgotten_inv h inp
+  obtain ⟨e0n, e0r, e0f, e0s, e0k, _, _, _, _⟩ := forgotten_fields inp s
+  have e0b := blocked_forgotten c inp s
+  generalize forgotten inp s = s0 at hs' h0 e0n e0r e0f e0s e0k e0b
   cases hm : inp.marked with
   | true =>
     simp only [hm, if_true] at hs'
@@ -616,37 +652,38 @@ theorem cycle_spec {c : Cfg} {s : St} (h : Inv c s) (inp : CycIn) :
     simp only [hm, Bool.false_eq_true, if_false] at hs'
     generalize hsel : (inp.matching && !s0.forever) = sel at hs'
     have hsel' : (inp.matching && !s.forever) = sel := by rw [← e0f]; exact hsel
-    -- spawn_daemons
-    generalize hs1 : (if (sel && s0.run.isNone) = true then spawn s0 else s0) = s1 at hs'
+    generalize hcond : (sel && s0.run.isNone && !s0.spawnBlocked c) = cond at hs'
+    generalize hs1 : (if cond = true then spawn s0 else s0) = s1 at hs'
     have h1 : Inv c s1 := by
       subst hs1
-      by_cases hc : (sel && s0.run.isNone) = true
-      · simp only [hc, if_true]
-        simp only [Bool.and_eq_true, Option.isNone_iff_eq_none] at hc
+      cases hcc : cond with
+      | false => simp only [Bool.false_eq_true, if_false]; exact h0
+      | true =>
+        simp only [if_true]
+        rw [hcc] at hcond
+        simp only [Bool.and_eq_true, Option.isNone_iff_eq_none] at hcond
         have hff : s0.forever = false := by
-          have := hc.1
+          have := hcond.1.1
           rw [← hsel] at this
           simp only [Bool.and_eq_true, Bool.not_eq_true'] at this
           exact this.2
-        exact spawn_inv h0 hc.2 hff
-      · simp only [hc]; exact h0
+        exact spawn_inv h0 hcond.1.2 hff
     have e1 : s1.now = s0.now ∧ s1.forever = s0.forever ∧ s1.known = s0.known ∧
-        s1.spawns = s0.spawns + (if (sel && s0.run.isNone) = true then 1 else 0) ∧
-        (∀ i, s0.run = some i → s1 = s0) ∧ (s0.run = none → sel = true → s1.run = some (Inst.fresh s0.now)) := by
+        s1.spawns = s0.spawns + (if cond = true then 1 else 0) ∧
+        (∀ i, s0.run = some i → s1 = s0) := by
       subst hs1
-      by_cases hc : (sel && s0.run.isNone) = true
-      · simp only [hc, if_true]
-        refine ⟨rfl, rfl, rfl, rfl, ?_, fun _ _ => rfl⟩
-        intro i hi; simp [hi] at hc
-      · simp only [hc]
-        refine ⟨rfl, rfl, rfl, by simp, fun _ _ => rfl, ?_⟩
-        intro hn hs; simp [hn, hs] at hc
-    obtain ⟨e1n, e1f, e1k, e1s, e1same, e1fresh⟩ := e1
-    -- match_daemons
+      cases hcc : cond with
+      | false => simp
+      | true =>
+        simp only [if_true]
+        refine ⟨rfl, rfl, rfl, rfl, ?_⟩
+        intro i hi
+        rw [hcc] at hcond
+        simp [hi] at hcond
+    obtain ⟨e1n, e1f, e1k, e1s, e1same⟩ := e1
     obtain ⟨h2, ev2, asked2⟩ := stopIf_spec h1 (r := .mismatch) rfl (!sel) inp.ex1
     generalize hs2 : stopIf c s1 (!sel) .mismatch inp.ex1 = p2 at hs' h2 ev2 asked2
     obtain ⟨s2, dm⟩ := p2
-    -- pause_daemons
     obtain ⟨h3, ev3, asked3⟩ := stopIf_spec h2 (r := .pausing) rfl inp.paused inp.ex2
     generalize hs3 : stopIf c s2 inp.paused .pausing inp.ex2 = p3 at hs' h3 ev3 asked3
     obtain ⟨s3, dp⟩ := p3
@@ -657,10 +694,10 @@ theorem cycle_spec {c : Cfg} {s : St} (h : Inv c s) (inp : CycIn) :
     · rw [ev.now, e1n, e0n]
     · intro hf; exact ev.foreverMono (by rw [e1f, e0f]; exact hf)
     · rw [ev.known, e1k, e0k]
-    · rw [ev.spawns, e1s, e0s, e0r]
+    · rw [ev.spawns, e1s, e0s]
       congr 1
-      rw [← hsel']
-      cases inp.matching <;> cases s.forever <;> cases s.run <;> simp
+      rw [← hcond, ← hsel, e0r, e0f, e0b]
+      simp
     · intro i i' hi hi'
       obtain ⟨j, hj, m, _⟩ := ev.same i' hi'
       have : s1 = s0 := e1same i (e0r ▸ hi)
@@ -674,31 +711,26 @@ theorem cycle_spec {c : Cfg} {s : St} (h : Inv c s) (inp : CycIn) :
       exact asked3 hp i' hi'
 
 /-- What a cycle leaves alone: the pause / exit state, the killer coroutines registered in a surviving
-    instance; and a newly spawned instance is registered as running since now, with no coroutine. -/
+    instance; the DELETED event stamps `goneAt`; and a newly spawned instance is registered as running
+    since now, with no coroutine. -/
 theorem cycle_frame {c : Cfg} {s : St} (h : Inv c s) (inp : CycIn) :
     let s' := (cycle c inp s).1
     s'.paused = s.paused ∧ s'.killerDone = s.killerDone ∧
     (∀ i i', s.run = some i → s'.run = some i' → i'.kstarts = i.kstarts) ∧
-    (s.run = none → ∀ i', s'.run = some i' → i'.since = s.now ∧ i'.kstarts = []) := by
+    (s.run = none → ∀ i', s'.run = some i' → i'.since = s.now ∧ i'.kstarts = []) ∧
+    s'.exitAt = s.exitAt ∧ s'.goneAt = (if inp.deleted then some s.now else s.goneAt) := by
   intro s'
-  have hk : ∀ (b : Bool), Inv c (if b then { s with known := false } else s) := by
-    intro b; cases b
-    · exact h
-    · exact ⟨h.live, h.inst⟩
-  generalize hs0 : (if inp.deleted = true then { s with known := false } else s) = s0
-  have h0 : Inv c s0 := hs0 ▸ hk inp.deleted
-  have e0 : s0.now = s.now ∧ s0.run = s.run ∧ s0.paused = s.paused ∧ s0.killerDone = s.killerDone := by
-    subst hs0; cases inp.deleted <;> simp
-  obtain ⟨e0n, e0r, e0p, e0d⟩ := e0
   have hs' : s' = (cycle c inp s).1 := rfl
-  unfold cycle at hs'
-  simp only [hs0] at hs'
+  rw [cycle_unfold] at hs'
+  have h0 := forgotten_inv h inp
+  obtain ⟨e0n, e0r, _, _, _, e0p, e0d, e0x, e0g⟩ := forgotten_fields inp s
+  generalize forgotten inp s = s0 at hs' h0 e0n e0r e0p e0d e0x e0g
   cases hm : inp.marked with
   | true =>
     simp only [hm, if_true] at hs'
     obtain ⟨_, ev, _⟩ := stopIf_spec h0 (r := .deleted) rfl true inp.ex1
     rw [← hs'] at ev
-    refine ⟨ev.paused.trans e0p, ev.killerDone.trans e0d, ?_, ?_⟩
+    refine ⟨ev.paused.trans e0p, ev.killerDone.trans e0d, ?_, ?_, ev.exitAt.trans e0x, ev.goneAt.trans e0g⟩
     · intro i i' hi hi'
       obtain ⟨j, hj, _, k⟩ := ev.same i' hi'
       rw [e0r, hi] at hj; cases hj; exact k
@@ -708,29 +740,35 @@ theorem cycle_frame {c : Cfg} {s : St} (h : Inv c s) (inp : CycIn) :
   | false =>
     simp only [hm, Bool.false_eq_true, if_false] at hs'
     generalize hsel : (inp.matching && !s0.forever) = sel at hs'
-    generalize hs1 : (if (sel && s0.run.isNone) = true then spawn s0 else s0) = s1 at hs'
+    generalize hcond : (sel && s0.run.isNone && !s0.spawnBlocked c) = cond at hs'
+    generalize hs1 : (if cond = true then spawn s0 else s0) = s1 at hs'
     have h1 : Inv c s1 := by
       subst hs1
-      by_cases hc : (sel && s0.run.isNone) = true
-      · simp only [hc, if_true]
-        simp only [Bool.and_eq_true, Option.isNone_iff_eq_none] at hc
+      cases hcc : cond with
+      | false => simp only [Bool.false_eq_true, if_false]; exact h0
+      | true =>
+        simp only [if_true]
+        rw [hcc] at hcond
+        simp only [Bool.and_eq_true, Option.isNone_iff_eq_none] at hcond
         have hff : s0.forever = false := by
-          have := hc.1
+          have := hcond.1.1
           rw [← hsel] at this
           simp only [Bool.and_eq_true, Bool.not_eq_true'] at this
           exact this.2
-        exact spawn_inv h0 hc.2 hff
-      · simp only [hc]; exact h0
-    have e1 : s1.paused = s0.paused ∧ s1.killerDone = s0.killerDone ∧ (∀ i, s0.run = some i → s1 = s0) ∧
+        exact spawn_inv h0 hcond.1.2 hff
+    have e1 : s1.paused = s0.paused ∧ s1.killerDone = s0.killerDone ∧ s1.exitAt = s0.exitAt ∧ s1.goneAt = s0.goneAt ∧
+        (∀ i, s0.run = some i → s1 = s0) ∧
         (s0.run = none → s1.run = none ∨ s1.run = some (Inst.fresh s0.now)) := by
       subst hs1
-      by_cases hc : (sel && s0.run.isNone) = true
-      · simp only [hc, if_true]
-        refine ⟨rfl, rfl, ?_, fun _ => Or.inr rfl⟩
-        intro i hi; simp [hi] at hc
-      · simp only [hc]
-        exact ⟨rfl, rfl, fun _ _ => rfl, fun hn => Or.inl hn⟩
-    obtain ⟨e1p, e1d, e1same, e1fresh⟩ := e1
+      cases hcc : cond with
+      | false => simp; exact fun hn => Or.inl hn
+      | true =>
+        simp only [if_true]
+        refine ⟨rfl, rfl, rfl, rfl, ?_, fun _ => Or.inr rfl⟩
+        intro i hi
+        rw [hcc] at hcond
+        simp [hi] at hcond
+    obtain ⟨e1p, e1d, e1x, e1g, e1same, e1fresh⟩ := e1
     obtain ⟨h2, ev2, _⟩ := stopIf_spec h1 (r := .mismatch) rfl (!sel) inp.ex1
     generalize hs2 : stopIf c s1 (!sel) .mismatch inp.ex1 = p2 at hs' h2 ev2
     obtain ⟨s2, dm⟩ := p2
@@ -740,7 +778,8 @@ theorem cycle_frame {c : Cfg} {s : St} (h : Inv c s) (inp : CycIn) :
     simp only at hs' ev2 ev3
     subst hs'
     have ev := ev2.trans ev3
-    refine ⟨(ev.paused.trans e1p).trans e0p, (ev.killerDone.trans e1d).trans e0d, ?_, ?_⟩
+    refine ⟨(ev.paused.trans e1p).trans e0p, (ev.killerDone.trans e1d).trans e0d, ?_, ?_,
+      (ev.exitAt.trans e1x).trans e0x, (ev.goneAt.trans e1g).trans e0g⟩
     · intro i i' hi hi'
       obtain ⟨j, hj, _, k⟩ := ev.same i' hi'
       have : s1 = s0 := e1same i (e0r ▸ hi)
@@ -759,8 +798,9 @@ namespace Kopf.C09
 /-! ### Every label keeps the invariant -/
 
 theorem init_inv (c : Cfg) (t0 : Tick) : Inv c (St.init t0) := by
-  refine ⟨rfl, ?_⟩
-  intro i h; simp [St.init] at h
+  refine ⟨rfl, ?_, ?_⟩
+  · intro i h; simp [St.init] at h
+  · intro h; simp [St.init] at h
 
 /-! ### What each label does (inversion of `step`) -/
 
@@ -772,6 +812,7 @@ structure Frame (s s' : St) : Prop where
   live : s'.live = s.live
   spawns : s'.spawns = s.spawns
   now : s.now ≤ s'.now
+  goneAt : s'.goneAt = s.goneAt
 
 theorem step_tick {c : Cfg} {s s' : St} {d : Nat} (hs : step c s (.tick d) = some s') :
     s' = { s with now := s.now + d } ∧ tickOk c s d = true := by
@@ -795,8 +836,23 @@ theorem step_resume {c : Cfg} {s s' : St} (hs : step c s .resume = some s') : s'
   · cases hs; rfl
   · cases hs
 
-theorem step_kFinal {c : Cfg} {s s' : St} (hs : step c s .kFinal = some s') : s' = { s with killerDone := true } := by
-  simp only [step, Option.some.injEq] at hs; exact hs.symm
+theorem step_kFinal {c : Cfg} {s s' : St} (hs : step c s .kFinal = some s') :
+    s' = { s with killerDone := true } ∧ s.exitAt.isSome = true ∧ s.sweptForExit c = true := by
+  simp only [step] at hs
+  split at hs
+  · rename_i hok; cases hs
+    simp only [Bool.and_eq_true] at hok
+    exact ⟨rfl, hok.1, hok.2⟩
+  · cases hs
+
+theorem step_exitBegin {c : Cfg} {s s' : St} (hs : step c s .exitBegin = some s') :
+    s' = { s with exitAt := some s.now } ∧ s.exitAt = none ∧ s.killerDone = false := by
+  simp only [step] at hs
+  split at hs
+  · rename_i hok; cases hs
+    simp only [Bool.and_eq_true, Option.isNone_iff_eq_none, Bool.not_eq_true'] at hok
+    exact ⟨rfl, hok.1, hok.2⟩
+  · cases hs
 
 theorem step_failForGood {c : Cfg} {s s' : St} (hs : step c s .failForGood = some s') :
     s' = { s with forever := true } ∧ s.run.isSome = true := by
@@ -818,9 +874,32 @@ theorem step_exit {c : Cfg} {s s' : St} (hs : step c s .exit = some s') : ∃ i,
   | none => rw [hrun] at hs; cases hs
   | some i => rw [hrun] at hs; cases hs; exact ⟨i, rfl, rfl⟩
 
+theorem mayBegin_primary {c : Cfg} {s : St} {r : Reason} (h : s.mayBegin c r = true) :
+    r = .pausing ∨ r = .exiting ∨ r = .deleted := by
+  cases r <;> simp [St.mayBegin] at h ⊢
+
+theorem mayBegin_pausing {c : Cfg} {s : St} (h : s.mayBegin c .pausing = true) :
+    s.known = true ∧ s.killerDone = false ∧ ∃ p, s.paused = some p ∧ isRound p s.now = true := by
+  simp only [St.mayBegin, Bool.and_eq_true, Bool.not_eq_true'] at h
+  obtain ⟨⟨hk, hd⟩, h2⟩ := h
+  refine ⟨hk, hd, ?_⟩
+  unfold St.atRound at h2
+  cases hpz : s.paused with
+  | none => rw [hpz] at h2; cases h2
+  | some p => rw [hpz] at h2; exact ⟨p, rfl, h2⟩
+
+theorem mayBegin_exiting {c : Cfg} {s : St} (h : s.mayBegin c .exiting = true) :
+    s.known = true ∧ s.killerDone = false ∧ s.exitAt.isSome = true := by
+  simp only [St.mayBegin, Bool.and_eq_true, Bool.not_eq_true'] at h
+  exact ⟨h.1.1, h.1.2, h.2⟩
+
+theorem mayBegin_deleted {c : Cfg} {s : St} (h : s.mayBegin c .deleted = true) :
+    c.stopsGone = true ∧ s.goneAt = some s.now := by
+  simp only [St.mayBegin, Bool.and_eq_true, beq_iff_eq] at h
+  exact h
+
 theorem step_kBegin {c : Cfg} {s s' : St} {r : Reason} (hs : step c s (.kBegin r) = some s') :
-    ∃ i, s.run = some i ∧ s.known = true ∧ s.killerDone = false ∧ (r = .pausing ∨ r = .exiting) ∧
-      (r = .pausing → ∃ p, s.paused = some p ∧ isRound p s.now = true) ∧
+    ∃ i, s.run = some i ∧ s.mayBegin c r = true ∧
       s' = { s with run := some { i.set r s.now with kstarts := s.now :: i.kstarts } } := by
   simp only [step] at hs
   cases hrun : s.run with
@@ -828,23 +907,10 @@ theorem step_kBegin {c : Cfg} {s s' : St} {r : Reason} (hs : step c s (.kBegin r
   | some i =>
     rw [hrun] at hs
     simp only at hs
-    by_cases hc : (s.known && !s.killerDone &&
-        ((r == .pausing && s.atRound) || r == .exiting)) = true
+    by_cases hc : s.mayBegin c r = true
     · rw [if_pos hc] at hs
       cases hs
-      simp only [Bool.and_eq_true, Bool.or_eq_true, beq_iff_eq, Bool.not_eq_true'] at hc
-      obtain ⟨⟨hk, hd⟩, hr⟩ := hc
-      refine ⟨i, rfl, hk, hd, ?_, ?_, rfl⟩
-      · rcases hr with ⟨h1, _⟩ | h1
-        · exact Or.inl h1
-        · exact Or.inr h1
-      · intro hp
-        rcases hr with ⟨_, h2⟩ | h1
-        · unfold St.atRound at h2
-          cases hpz : s.paused with
-          | none => rw [hpz] at h2; cases h2
-          | some p => rw [hpz] at h2; exact ⟨p, rfl, h2⟩
-        · rw [hp] at h1; cases h1
+      exact ⟨i, rfl, hc, rfl⟩
     · rw [if_neg hc] at hs; cases hs
 
 theorem step_kSignal {c : Cfg} {s s' : St} {st : Tick} (hs : step c s (.kSignal st) = some s') :
@@ -882,44 +948,58 @@ theorem step_kAbandon {c : Cfg} {s s' : St} {st : Tick} (hs : step c s (.kAbando
     · rename_i hc; cases hs; exact ⟨i, rfl, hc.1, hc.2, rfl⟩
     · cases hs
 
-/-- the four frame labels -/
-theorem step_frame {c : Cfg} {s s' : St} (l : Label) (hs : step c s l = some s')
-    (hl : (∃ d, l = .tick d) ∨ l = .pause ∨ l = .resume ∨ l = .kFinal ∨ l = .failForGood) : Frame s s' := by
-  rcases hl with ⟨d, rfl⟩ | rfl | rfl | rfl | rfl
-  · obtain ⟨h1, _⟩ := step_tick hs; subst h1
-    exact ⟨rfl, fun h => h, rfl, rfl, rfl, Int.le_add_of_nonneg_right (Int.natCast_nonneg d)⟩
-  · obtain ⟨h1, _⟩ := step_pause hs; subst h1; exact ⟨rfl, fun h => h, rfl, rfl, rfl, Int.le_refl _⟩
-  · have h1 := step_resume hs; subst h1; exact ⟨rfl, fun h => h, rfl, rfl, rfl, Int.le_refl _⟩
-  · have h1 := step_kFinal hs; subst h1; exact ⟨rfl, fun h => h, rfl, rfl, rfl, Int.le_refl _⟩
-  · obtain ⟨h1, _⟩ := step_failForGood hs; subst h1; exact ⟨rfl, fun _ => rfl, rfl, rfl, rfl, Int.le_refl _⟩
+/-- the labels that touch neither the instance nor the memory -/
+def Label.isFrame : Label → Bool
+  | .tick _ | .pause | .resume | .kFinal | .failForGood | .exitBegin => true
+  | _ => false
+
+theorem step_frame {c : Cfg} {s s' : St} (l : Label) (hs : step c s l = some s') (hl : l.isFrame = true) : Frame s s' := by
+  cases l with
+  | tick d =>
+    obtain ⟨h1, _⟩ := step_tick hs; subst h1
+    exact ⟨rfl, fun h => h, rfl, rfl, rfl, Int.le_add_of_nonneg_right (Int.natCast_nonneg d), rfl⟩
+  | pause => obtain ⟨h1, _⟩ := step_pause hs; subst h1; exact ⟨rfl, fun h => h, rfl, rfl, rfl, Int.le_refl _, rfl⟩
+  | resume => have h1 := step_resume hs; subst h1; exact ⟨rfl, fun h => h, rfl, rfl, rfl, Int.le_refl _, rfl⟩
+  | kFinal => obtain ⟨h1, _⟩ := step_kFinal hs; subst h1; exact ⟨rfl, fun h => h, rfl, rfl, rfl, Int.le_refl _, rfl⟩
+  | failForGood => obtain ⟨h1, _⟩ := step_failForGood hs; subst h1; exact ⟨rfl, fun _ => rfl, rfl, rfl, rfl, Int.le_refl _, rfl⟩
+  | exitBegin => obtain ⟨h1, _⟩ := step_exitBegin hs; subst h1; exact ⟨rfl, fun h => h, rfl, rfl, rfl, Int.le_refl _, rfl⟩
+  | cycle _ => cases hl
+  | exit => cases hl
+  | kBegin _ => cases hl
+  | kSignal _ => cases hl
+  | kCancel _ => cases hl
+  | kAbandon _ => cases hl
 
 theorem frame_inv {c : Cfg} {s s' : St} (h : Inv c s) (f : Frame s s') : Inv c s' := by
-  refine ⟨?_, ?_⟩
+  refine ⟨?_, ?_, ?_⟩
   · rw [f.live, f.run]; exact h.live
   · intro i hi; rw [f.run] at hi; exact (h.inst i hi).mono f.now
+  · intro hg; rw [f.goneAt] at hg; rw [f.known]; exact h.goneKnown hg
 
 /-- an update of the running instance that keeps the invariant keeps the state invariant -/
 theorem inst_update_inv {c : Cfg} {s : St} (h : Inv c s) {i j : Inst} (hi : s.run = some i)
     (hj : InstInv c s.now j) : Inv c { s with run := some j } := by
-  refine ⟨?_, ?_⟩
+  refine ⟨?_, ?_, ?_⟩
   · have := h.live; simp [hi] at this; simp [this]
   · intro k hk; simp at hk; subst hk; exact hj
+  · exact h.goneKnown
 
 /-! ### Every label keeps the invariant -/
 
 theorem step_inv {c : Cfg} {s s' : St} (h : Inv c s) (l : Label) (hs : step c s l = some s') : Inv c s' := by
   cases l with
-  | tick d => exact frame_inv h (step_frame _ hs (Or.inl ⟨d, rfl⟩))
-  | pause => exact frame_inv h (step_frame _ hs (Or.inr (Or.inl rfl)))
-  | resume => exact frame_inv h (step_frame _ hs (Or.inr (Or.inr (Or.inl rfl))))
-  | kFinal => exact frame_inv h (step_frame _ hs (Or.inr (Or.inr (Or.inr (Or.inl rfl)))))
-  | failForGood => exact frame_inv h (step_frame _ hs (Or.inr (Or.inr (Or.inr (Or.inr rfl)))))
+  | tick d => exact frame_inv h (step_frame _ hs rfl)
+  | pause => exact frame_inv h (step_frame _ hs rfl)
+  | resume => exact frame_inv h (step_frame _ hs rfl)
+  | kFinal => exact frame_inv h (step_frame _ hs rfl)
+  | failForGood => exact frame_inv h (step_frame _ hs rfl)
+  | exitBegin => exact frame_inv h (step_frame _ hs rfl)
   | cycle inp => obtain ⟨h1, _⟩ := step_cycle hs; subst h1; exact (cycle_spec h inp).1
   | exit => obtain ⟨i, hi, h1⟩ := step_exit hs; subst h1; exact endInst_inv h hi i
   | kBegin r =>
-    obtain ⟨i, hi, _, _, hr, _, h1⟩ := step_kBegin hs
+    obtain ⟨i, hi, hmb, h1⟩ := step_kBegin hs
     subst h1
-    have hp : r.primary = true := by rcases hr with h1 | h1 <;> subst h1 <;> rfl
+    have hp : r.primary = true := by rcases mayBegin_primary hmb with h1 | h1 | h1 <;> subst h1 <;> rfl
     exact inst_update_inv h hi ((h.inst i hi).push_kstart r hp)
   | kSignal st =>
     obtain ⟨i, hi, hst, h1⟩ := step_kSignal hs
@@ -989,15 +1069,16 @@ theorem set_mono (i : Inst) (r : Reason) (now : Tick) : Mono i (i.set r now) :=
 theorem step_mono {c : Cfg} {s s' : St} (h : Inv c s) (l : Label) (hs : step c s l = some s')
     {i i' : Inst} (hi : s.run = some i) (hi' : s'.run = some i') : Mono i i' := by
   cases l with
-  | tick d => have f := step_frame _ hs (Or.inl ⟨d, rfl⟩); rw [f.run, hi] at hi'; cases hi'; exact Mono.refl i
-  | pause => have f := step_frame _ hs (Or.inr (Or.inl rfl)); rw [f.run, hi] at hi'; cases hi'; exact Mono.refl i
-  | resume => have f := step_frame _ hs (Or.inr (Or.inr (Or.inl rfl))); rw [f.run, hi] at hi'; cases hi'; exact Mono.refl i
-  | kFinal => have f := step_frame _ hs (Or.inr (Or.inr (Or.inr (Or.inl rfl)))); rw [f.run, hi] at hi'; cases hi'; exact Mono.refl i
-  | failForGood => have f := step_frame _ hs (Or.inr (Or.inr (Or.inr (Or.inr rfl)))); rw [f.run, hi] at hi'; cases hi'; exact Mono.refl i
+  | tick d => have f := step_frame _ hs rfl; rw [f.run, hi] at hi'; cases hi'; exact Mono.refl i
+  | pause => have f := step_frame _ hs rfl; rw [f.run, hi] at hi'; cases hi'; exact Mono.refl i
+  | resume => have f := step_frame _ hs rfl; rw [f.run, hi] at hi'; cases hi'; exact Mono.refl i
+  | kFinal => have f := step_frame _ hs rfl; rw [f.run, hi] at hi'; cases hi'; exact Mono.refl i
+  | failForGood => have f := step_frame _ hs rfl; rw [f.run, hi] at hi'; cases hi'; exact Mono.refl i
+  | exitBegin => have f := step_frame _ hs rfl; rw [f.run, hi] at hi'; cases hi'; exact Mono.refl i
   | cycle inp => obtain ⟨h1, _⟩ := step_cycle hs; subst h1; exact (cycle_spec h inp).2.2.2.2.2.1 i i' hi hi'
   | exit => obtain ⟨j, _, h1⟩ := step_exit hs; subst h1; simp [endInst] at hi'
   | kBegin r =>
-    obtain ⟨j, hj, _, _, _, _, h1⟩ := step_kBegin hs
+    obtain ⟨j, hj, _, h1⟩ := step_kBegin hs
     subst h1; rw [hi] at hj; cases hj
     simp at hi'; subst hi'
     exact ⟨(set_mono i r s.now).reasons, (set_mono i r s.now).when, fun _ h => h, fun _ h => h,
@@ -1022,17 +1103,18 @@ theorem step_mono {c : Cfg} {s s' : St} (h : Inv c s) (l : Label) (hs : step c s
 /-- a spawn happens in exactly one kind of step -/
 theorem step_spawns {c : Cfg} {s s' : St} (h : Inv c s) (l : Label) (hs : step c s l = some s') :
     s'.spawns = s.spawns + (match l with
-      | .cycle inp => if !inp.marked && inp.matching && !s.forever && s.run.isNone then 1 else 0
+      | .cycle inp => if !inp.marked && inp.matching && !s.forever && s.run.isNone && !blockedIn c inp s then 1 else 0
       | _ => 0) := by
   cases l with
-  | tick d => simp [(step_frame _ hs (Or.inl ⟨d, rfl⟩)).spawns]
-  | pause => simp [(step_frame _ hs (Or.inr (Or.inl rfl))).spawns]
-  | resume => simp [(step_frame _ hs (Or.inr (Or.inr (Or.inl rfl)))).spawns]
-  | kFinal => simp [(step_frame _ hs (Or.inr (Or.inr (Or.inr (Or.inl rfl))))).spawns]
-  | failForGood => simp [(step_frame _ hs (Or.inr (Or.inr (Or.inr (Or.inr rfl))))).spawns]
+  | tick d => simp [(step_frame _ hs rfl).spawns]
+  | pause => simp [(step_frame _ hs rfl).spawns]
+  | resume => simp [(step_frame _ hs rfl).spawns]
+  | kFinal => simp [(step_frame _ hs rfl).spawns]
+  | failForGood => simp [(step_frame _ hs rfl).spawns]
+  | exitBegin => simp [(step_frame _ hs rfl).spawns]
   | cycle inp => obtain ⟨h1, _⟩ := step_cycle hs; subst h1; exact (cycle_spec h inp).2.2.2.2.1
   | exit => obtain ⟨j, _, h1⟩ := step_exit hs; subst h1; simp [endInst]
-  | kBegin r => obtain ⟨j, _, _, _, _, _, h1⟩ := step_kBegin hs; subst h1; simp
+  | kBegin r => obtain ⟨j, _, _, h1⟩ := step_kBegin hs; subst h1; simp
   | kSignal st => obtain ⟨j, _, _, h1⟩ := step_kSignal hs; subst h1; simp
   | kCancel st => obtain ⟨j, _, _, _, _, h1⟩ := step_kCancel hs; subst h1; simp
   | kAbandon st => obtain ⟨j, _, _, _, h1⟩ := step_kAbandon hs; subst h1; simp
@@ -1040,33 +1122,41 @@ theorem step_spawns {c : Cfg} {s s' : St} (h : Inv c s) (l : Label) (hs : step c
 theorem step_forever {c : Cfg} {s s' : St} (h : Inv c s) (l : Label) (hs : step c s l = some s')
     (hf : s.forever = true) : s'.forever = true := by
   cases l with
-  | tick d => exact (step_frame _ hs (Or.inl ⟨d, rfl⟩)).forever hf
-  | pause => exact (step_frame _ hs (Or.inr (Or.inl rfl))).forever hf
-  | resume => exact (step_frame _ hs (Or.inr (Or.inr (Or.inl rfl)))).forever hf
-  | kFinal => exact (step_frame _ hs (Or.inr (Or.inr (Or.inr (Or.inl rfl))))).forever hf
-  | failForGood => exact (step_frame _ hs (Or.inr (Or.inr (Or.inr (Or.inr rfl))))).forever hf
+  | tick d => exact (step_frame _ hs rfl).forever hf
+  | pause => exact (step_frame _ hs rfl).forever hf
+  | resume => exact (step_frame _ hs rfl).forever hf
+  | kFinal => exact (step_frame _ hs rfl).forever hf
+  | failForGood => exact (step_frame _ hs rfl).forever hf
+  | exitBegin => exact (step_frame _ hs rfl).forever hf
   | cycle inp => obtain ⟨h1, _⟩ := step_cycle hs; subst h1; exact (cycle_spec h inp).2.2.1 hf
   | exit => obtain ⟨j, _, h1⟩ := step_exit hs; subst h1; simp [endInst, hf]
-  | kBegin r => obtain ⟨j, _, _, _, _, _, h1⟩ := step_kBegin hs; subst h1; exact hf
+  | kBegin r => obtain ⟨j, _, _, h1⟩ := step_kBegin hs; subst h1; exact hf
   | kSignal st => obtain ⟨j, _, _, h1⟩ := step_kSignal hs; subst h1; exact hf
   | kCancel st => obtain ⟨j, _, _, _, _, h1⟩ := step_kCancel hs; subst h1; exact hf
   | kAbandon st => obtain ⟨j, _, _, _, h1⟩ := step_kAbandon hs; subst h1; exact hf
 
 theorem cycle_run_none (c : Cfg) (inp : CycIn) (s : St) (hn : s.run = none)
-    (hc : (!inp.marked && inp.matching && !s.forever) = false) : (cycle c inp s).1.run = none := by
-  unfold cycle stopIf
-  cases hd : inp.deleted <;> cases hm : inp.marked <;> cases hma : inp.matching <;> cases hf : s.forever <;>
+    (hc : (!inp.marked && inp.matching && !s.forever && !blockedIn c inp s) = false) : (cycle c inp s).1.run = none := by
+  rw [cycle_unfold]
+  have hb := blocked_forgotten c inp s
+  obtain ⟨_, e0r, e0f, _⟩ := forgotten_fields inp s
+  generalize forgotten inp s = s0 at hb e0r e0f
+  generalize blockedIn c inp s = bl at hb hc
+  rw [← e0r] at hn; rw [← e0f] at hc
+  unfold stopIf
+  cases hm : inp.marked <;> cases hma : inp.matching <;> cases hf : s0.forever <;> cases hbl : bl <;>
     simp_all
 
 /-- the instance does not come back without a spawn -/
 theorem step_run_none {c : Cfg} {s s' : St} (h : Inv c s) (l : Label) (hs : step c s l = some s')
     (hn : s.run = none) (hsp : s'.spawns = s.spawns) : s'.run = none := by
   cases l with
-  | tick d => rw [(step_frame _ hs (Or.inl ⟨d, rfl⟩)).run]; exact hn
-  | pause => rw [(step_frame _ hs (Or.inr (Or.inl rfl))).run]; exact hn
-  | resume => rw [(step_frame _ hs (Or.inr (Or.inr (Or.inl rfl)))).run]; exact hn
-  | kFinal => rw [(step_frame _ hs (Or.inr (Or.inr (Or.inr (Or.inl rfl))))).run]; exact hn
-  | failForGood => rw [(step_frame _ hs (Or.inr (Or.inr (Or.inr (Or.inr rfl))))).run]; exact hn
+  | tick d => rw [(step_frame _ hs rfl).run]; exact hn
+  | pause => rw [(step_frame _ hs rfl).run]; exact hn
+  | resume => rw [(step_frame _ hs rfl).run]; exact hn
+  | kFinal => rw [(step_frame _ hs rfl).run]; exact hn
+  | failForGood => rw [(step_frame _ hs rfl).run]; exact hn
+  | exitBegin => rw [(step_frame _ hs rfl).run]; exact hn
   | cycle inp =>
     obtain ⟨h1, _⟩ := step_cycle hs
     subst h1
@@ -1077,10 +1167,10 @@ theorem step_run_none {c : Cfg} {s s' : St} (h : Inv c s) (l : Label) (hs : step
       -- an instance out of nothing is a spawn
       have hsp' := (cycle_spec h inp).2.2.2.2.1
       rw [hsp] at hsp'
-      by_cases hc : (!inp.marked && inp.matching && !s.forever && s.run.isNone) = true
+      by_cases hc : (!inp.marked && inp.matching && !s.forever && s.run.isNone && !blockedIn c inp s) = true
       · simp [hc] at hsp'
       · -- no spawn: the cycle only stops what runs, and nothing runs
-        have hc' : (!inp.marked && inp.matching && !s.forever) = false := by
+        have hc' : (!inp.marked && inp.matching && !s.forever && !blockedIn c inp s) = false := by
           simpa [hn] using hc
         rw [cycle_run_none c inp s hn hc'] at hr; cases hr
   | exit => obtain ⟨j, hj, _⟩ := step_exit hs; rw [hn] at hj; cases hj
@@ -1113,28 +1203,35 @@ theorem runs_forever {c : Cfg} : ∀ (ls : List Label) {s s' : St}, Inv c s → 
 
 /-! ### The unmarked disappearance: nobody ever asks the instance to stop -/
 
-theorem orphan_step {c : Cfg} {s s' : St} (ho : Orphan s) (l : Label) (hs : step c s l = some s') : Orphan s' := by
+theorem orphan_step {c : Cfg} {s s' : St} (hc : c.stopsGone = false) (ho : Orphan s) (l : Label) (hs : step c s l = some s') : Orphan s' := by
   obtain ⟨hk, hi⟩ := ho
   have frame : Frame s s' → Orphan s' := fun f => ⟨by rw [f.known]; exact hk, fun i hi' => hi i (f.run ▸ hi')⟩
   cases l with
-  | tick d => exact frame (step_frame _ hs (Or.inl ⟨d, rfl⟩))
-  | pause => exact frame (step_frame _ hs (Or.inr (Or.inl rfl)))
-  | resume => exact frame (step_frame _ hs (Or.inr (Or.inr (Or.inl rfl))))
-  | kFinal => exact frame (step_frame _ hs (Or.inr (Or.inr (Or.inr (Or.inl rfl)))))
-  | failForGood => exact frame (step_frame _ hs (Or.inr (Or.inr (Or.inr (Or.inr rfl)))))
+  | tick d => exact frame (step_frame _ hs rfl)
+  | pause => exact frame (step_frame _ hs rfl)
+  | resume => exact frame (step_frame _ hs rfl)
+  | kFinal => exact frame (step_frame _ hs rfl)
+  | failForGood => exact frame (step_frame _ hs rfl)
+  | exitBegin => exact frame (step_frame _ hs rfl)
   | cycle inp => obtain ⟨_, hkk⟩ := step_cycle hs; rw [hk] at hkk; cases hkk
   | exit => obtain ⟨j, _, h1⟩ := step_exit hs; subst h1; exact ⟨hk, fun k hk' => by simp [endInst] at hk'⟩
-  | kBegin r => obtain ⟨j, _, hkk, _⟩ := step_kBegin hs; rw [hk] at hkk; cases hkk
+  | kBegin r =>
+    obtain ⟨j, _, hmb, _⟩ := step_kBegin hs
+    exfalso
+    rcases mayBegin_primary hmb with h1 | h1 | h1 <;> subst h1
+    · have := (mayBegin_pausing hmb).1; rw [hk] at this; cases this
+    · have := (mayBegin_exiting hmb).1; rw [hk] at this; cases this
+    · have := (mayBegin_deleted hmb).1; rw [hc] at this; cases this
   | kSignal st => obtain ⟨j, hj, hst, _⟩ := step_kSignal hs; rw [(hi j hj).2] at hst; cases hst
   | kCancel st => obtain ⟨j, hj, hst, _⟩ := step_kCancel hs; rw [(hi j hj).2] at hst; cases hst
   | kAbandon st => obtain ⟨j, hj, hst, _⟩ := step_kAbandon hs; rw [(hi j hj).2] at hst; cases hst
 
-theorem orphan_runs {c : Cfg} : ∀ (ls : List Label) {s s' : St}, Orphan s → runs c s ls = some s' → Orphan s'
+theorem orphan_runs {c : Cfg} (hc : c.stopsGone = false) : ∀ (ls : List Label) {s s' : St}, Orphan s → runs c s ls = some s' → Orphan s'
   | [], s, s', h, hr => by simp only [runs, Option.some.injEq] at hr; subst hr; exact h
   | l :: ls, s, s', h, hr => by
     simp only [runs] at hr
     cases hst : step c s l with
     | none => rw [hst] at hr; cases hr
-    | some s1 => rw [hst] at hr; exact orphan_runs ls (orphan_step h l hst) hr
+    | some s1 => rw [hst] at hr; exact orphan_runs hc ls (orphan_step hc h l hst) hr
 
 end Kopf.C09
